@@ -1259,6 +1259,8 @@ func twoMethodShapes(m *hsMaterial) []pairShape {
 		{name: "token-bad-claim", cm: []string{"TOKEN", "CLAIMTOBE"}, sm: []string{"TOKEN", "CLAIMTOBE"}, cc: aes, scs: aes, ok: []string{"CLAIMTOBE"}, ct: m.cliToken(m.badTokenFile), st: m.srvToken()},
 		{name: "token-good-first", cm: []string{"CLAIMTOBE", "TOKEN"}, sm: []string{"TOKEN", "CLAIMTOBE"}, cc: aes, scs: aes, ok: []string{"TOKEN", "CLAIMTOBE"}, ct: m.cliToken(m.tokenFile), st: m.srvToken()},
 		{name: "claim-before-token", cm: []string{"TOKEN", "CLAIMTOBE"}, sm: []string{"CLAIMTOBE", "TOKEN"}, cc: aes, scs: aes, ok: []string{"TOKEN", "CLAIMTOBE"}, ct: m.cliToken(m.tokenFile), st: m.srvToken()},
+		// the ONLY common method cannot complete between these two parties: no mutually usable method exists
+		{name: "fs-fails-only", cm: []string{"FS"}, sm: []string{"FS"}, cc: aes, scs: aes, ok: nil, nat: true},
 	}
 }
 
@@ -1447,6 +1449,15 @@ func runMatrix(c *Ctx) error {
 								break
 							}
 						}
+						listed := "" // first implemented method both sides LIST (whether or not it can complete between them)
+						for _, m := range sh.sm {
+							if contains(sh.cm, m) && m != "PASSWORD" && m != "NONE" {
+								listed = m
+								break
+							}
+						}
+						// the only failure is discovered while the exchanges run: a commonly listed method exists, none completes
+						runtimeOnly := listed != "" && common == ""
 						cipher := false
 						for _, x := range sh.scs {
 							if contains(sh.cc, x) {
@@ -1469,7 +1480,9 @@ func runMatrix(c *Ctx) error {
 						if fail {
 							if cl.err == nil || sv.err == nil {
 								viol("should-fail:"+sh.name, "handshake succeeded although one side requires what the other forbids / a required feature has no common method", "failure with explicit denial", real)
-							} else if !denied {
+							} else if !denied && !(runtimeOnly && !(req(ca, sa) && nev(ca, sa)) && !(req(ce, se) && (nev(ce, se) || !cipher))) {
+								// (when every commonly listed method fails while it RUNS, it is the client that gives up --
+								// it sends the final 0 and holds the per-method errors -- so it is not left with a bare close)
 								viol("bare-close:"+sh.name, "handshake failed without an explicit denial reaching the client (the server's last message on the wire is not an ad carrying a denial return code)", "DENIED response on the wire", "none")
 							}
 						} else if integStuck {
@@ -1477,7 +1490,11 @@ func runMatrix(c *Ctx) error {
 								viol("integ-required-off:"+sh.name, "integrity REQUIRED, no common cipher, yet the handshake succeeded", "failure", real)
 							}
 						} else {
-							if cl.err != nil || sv.err != nil {
+							if (cl.err != nil || sv.err != nil) && runtimeOnly && pref(ca, sa) {
+								// nobody requires authentication, somebody prefers it, the commonly listed methods all fail on
+								// the wire: no mutually usable method exists, so by the table the handshake goes on unauthenticated
+								viol("preferred-auth-fails-late:"+sh.name, "authentication is only PREFERRED, every commonly listed method failed while it ran (no mutually usable method), and the handshake failed instead of continuing unauthenticated", fmt.Sprintf("success (auth=false, enc>=%v)", encOn), fmt.Sprintf("client failed=%v / server failed=%v", cl.err != nil, sv.err != nil))
+							} else if cl.err != nil || sv.err != nil {
 								viol("should-succeed:"+sh.name, "handshake failed although the policy table says it succeeds", fmt.Sprintf("success (auth=%v, enc>=%v)", wantAuth, encOn), fmt.Sprintf("client failed=%v / server failed=%v", cl.err != nil, sv.err != nil))
 							} else {
 								if cl.neg.Authentication != sv.neg.Authentication || cl.neg.Encryption != sv.neg.Encryption {
